@@ -45,6 +45,9 @@ class FS:
         self.ext['pickle.load'] = lambda a, k: self._load('pickle', a[0])
         self.ext['json.load'] = lambda a, k: self._load('json', a[0])
         self.ext['warnings.warn'] = lambda a, k: None
+        self.ext['io.BytesIO'] = lambda a, k: self._buffer(True)
+        self.ext['io.StringIO'] = lambda a, k: self._buffer(False)
+        self.fail_write = False
         self.ext['os.replace'] = lambda a, k: self._replace(self._s(a[0]), self._s(a[1]))
         self.ext['os.rename'] = lambda a, k: self._replace(self._s(a[0]), self._s(a[1]))
         self.ext['os.unlink'] = lambda a, k: self._unlink(self._s(a[0]), False)
@@ -65,6 +68,20 @@ class FS:
                            ('urllib.parse.unquote', urllib.parse.unquote), ('os.path.basename', os.path.basename),
                            ('os.path.join', os.path.join), ('base64.urlsafe_b64encode', base64.urlsafe_b64encode)):
             self.ext[name_] = pure(fn_)
+        # work handed to an executor / a thread runs to completion before the awaiting coroutine goes on: in these sequential worlds
+        # it is simply called (what an overlap of two saves does with the suspension point is FS-10's question)
+        self.interp = None
+
+        def call_now(a, k, skip=0):
+            fn, rest = a[skip], list(a[skip + 1:])
+            if self.interp is None:
+                raise AnalysisError('file-system world: executor call before the interpreter is attached')
+            return self.interp.call(fn, rest, dict(k))
+        loop = AObj(('ext', 'asyncio.AbstractEventLoop'), {}, tag='loop')
+        loop.attrs['run_in_executor'] = self._method(lambda a, k: call_now(a, k, 1))
+        for name_ in ('asyncio.get_running_loop', 'asyncio.get_event_loop', 'asyncio.events.get_running_loop'):
+            self.ext[name_] = lambda a, k: loop
+        self.ext['asyncio.to_thread'] = lambda a, k: call_now(a, k, 0)
         # the modelled objects (paths, open files) have exactly the attributes given here
         self.ext['builtins.hasattr'] = lambda a, k: (a[1] in a[0].attrs) if isinstance(a[0], AObj) and ('s' in a[0].attrs or 'path' in a[0].attrs) else TOP
 
@@ -120,10 +137,28 @@ class FS:
         a['touch'] = self._method(lambda ar, k: self._touch(s, k))
         a['joinpath'] = self._method(lambda ar, k: self.path(self._join(s, self._s(ar[0]))))
         a['iterdir'] = self._method(lambda ar, k: [self.path(p_) for p_ in sorted(self.table) if p_.rsplit('/', 1)[0] == self._norm(s) and p_ != self._norm(s)])
+        a['glob'] = self._method(lambda ar, k: self._glob(s, self._s(ar[0]), False))
+        a['rglob'] = self._method(lambda ar, k: self._glob(s, self._s(ar[0]), True))
+        a['match'] = self._method(lambda ar, k: __import__('fnmatch').fnmatchcase(name, self._s(ar[0])))
         a['__fspath__'] = self._method(lambda ar, k: s)
         a['__str__'] = self._method(lambda ar, k: s)
         a['parent'] = self.path(parent) if '/' in parent.strip('/') else None
         return o
+
+    def _glob(self, s: str, pattern: str, recursive: bool) -> list:
+        """Path.glob on the table: shell-style matching of the entries directly below (or anywhere below) the directory"""
+        import fnmatch
+        base = self._norm(s)
+        out_ = []
+        for p_ in sorted(self.table):
+            if p_ == base or not p_.startswith(base + '/'):
+                continue
+            rel = p_[len(base) + 1:]
+            if not recursive and '/' in rel:
+                continue
+            if fnmatch.fnmatchcase(rel.rsplit('/', 1)[-1] if recursive else rel, pattern):
+                out_.append(self.path(p_))
+        return out_
 
     def _mkdir(self, s: str, k) -> None:
         s = self._norm(s)
@@ -173,7 +208,34 @@ class FS:
         h.attrs['close'] = self._method(lambda a_, k_: None)
         h.attrs['flush'] = self._method(lambda a_, k_: None)
         h.attrs['fileno'] = self._method(lambda a_, k_: 3)
+        h.attrs['write'] = self._method(lambda a_, k_: self._write_payload(h, a_[0]))
+        h.attrs['read'] = self._method(lambda a_, k_: AObj(('ext', 'Payload'), {'content': self.table.get(s, ('none', None))[1], 'binary': 'b' in mode},
+                                                          tag='payload'))
         return h
+
+    def _buffer(self, binary: bool) -> AObj:
+        """io.BytesIO / io.StringIO: an in-memory file"""
+        b = AObj(('ext', 'io.Buffer'), {'binary': binary, 'content': None, 'mode': 'w+b' if binary else 'w+'}, tag='buffer')
+        b.attrs['__enter__'] = self._method(lambda a_, k_: b)
+        b.attrs['__exit__'] = self._method(lambda a_, k_: None)
+        b.attrs['seek'] = self._method(lambda a_, k_: 0)
+        b.attrs['close'] = self._method(lambda a_, k_: None)
+        b.attrs['getvalue'] = self._method(lambda a_, k_: AObj(('ext', 'Payload'), {'content': b.attrs['content'], 'binary': binary}, tag='payload'))
+        b.attrs['read'] = b.attrs['getvalue']
+        b.attrs['getbuffer'] = b.attrs['getvalue']
+        return b
+
+    def _write_payload(self, h: AObj, payload) -> None:
+        """file.write(<what a buffer held>)"""
+        if self.fail_write:
+            raise ARaise('OSError (no space left on device)')
+        if not (isinstance(payload, AObj) and 'content' in payload.attrs):
+            raise AnalysisError(f'file-system world: write of {payload!r}')
+        if payload.attrs.get('binary') != ('b' in h.attrs['mode']):
+            raise ARaise('TypeError (bytes / str written to a text / binary file)')
+        if h.attrs['path'] in self.table:
+            self.table[h.attrs['path']] = ('file', payload.attrs['content'])
+        return None
 
     def _unlink(self, s: str, missing_ok: bool) -> None:
         s = self._norm(s)
@@ -196,7 +258,7 @@ class FS:
         return self.path(dst)
 
     def _dump(self, kind: str, obj, fp) -> None:
-        if not (isinstance(fp, AObj) and 'path' in fp.attrs):
+        if not (isinstance(fp, AObj) and ('path' in fp.attrs or 'content' in fp.attrs)):
             raise AnalysisError('file-system world: dump into something that is not an open file')
         mode = fp.attrs['mode']
         if (kind == 'pickle') != ('b' in mode):
@@ -205,17 +267,22 @@ class FS:
             raise ARaise('UnsupportedOperation (not writable)')
         if self.fail_dump:
             raise ARaise('PicklingError (the value cannot be serialised)')
+        if 'path' not in fp.attrs:
+            fp.attrs['content'] = (kind, obj)            # an in-memory buffer
+            return None
+        if self.fail_write:
+            raise ARaise('OSError (no space left on device)')
         if fp.attrs['path'] not in self.table:
             return None                                  # written into an unlinked file: gone
         self.table[fp.attrs['path']] = ('file', (kind, obj))
         return None
 
     def _load(self, kind: str, fp):
-        if not (isinstance(fp, AObj) and 'path' in fp.attrs):
+        if not (isinstance(fp, AObj) and ('path' in fp.attrs or 'content' in fp.attrs)):
             raise AnalysisError('file-system world: load from something that is not an open file')
         if (kind == 'pickle') != ('b' in fp.attrs['mode']):
             raise ARaise('TypeError (text / binary mode does not fit the serializer)')
-        content = self.table.get(fp.attrs['path'], ('none', None))[1]
+        content = self.table.get(fp.attrs['path'], ('none', None))[1] if 'path' in fp.attrs else fp.attrs['content']
         if content is None:
             raise ARaise('EOFError (empty file)')
         if content[0] != kind:
@@ -235,6 +302,7 @@ class Session:
         self.ctx = ctx
         self.fs = FS()
         self.interp = Interp(ctx.p, oracle, ext_stubs=self.fs.ext, enum_objects=True)
+        self.fs.interp = self.interp
         st = _store(ctx)
         context = AObj(('ext', 'Context'), {'model_name': 'model', 'pipeline_id': 'pid'}, tag='ctx')
         self.store = self.interp.construct(AClass(st), [], {'ctx': context, 'artifact_dir': '/root/artifacts'})
@@ -247,22 +315,30 @@ class Session:
         if len(self.formats) < 2:
             raise AnalysisError('DataFormat has fewer than two members (FS-9 anchor vanished)')
 
-    def save(self, key: str, value, fmt: Optional[str], fail: bool = False) -> str:
-        self.fs.fail_dump = fail
+    def second_store(self) -> AObj:
+        """another store object over the same directory, model name and pipeline id (another context of the same pipeline run)"""
+        context = AObj(('ext', 'Context'), {'model_name': 'model', 'pipeline_id': 'pid'}, tag='ctx2')
+        return self.interp.construct(AClass(_store(self.ctx)), [], {'ctx': context, 'artifact_dir': '/root/artifacts'})
+
+    def save(self, key: str, value, fmt: Optional[str], fail=False, store=None) -> str:
+        """fail: False | True / 'serialise' (the serializer raises) | 'write' (the file system refuses the content)"""
+        self.fs.fail_dump = fail in (True, 'serialise')
+        self.fs.fail_write = fail == 'write'
         try:
             kw = {'node_id': key, 'data': value}
             if fmt is not None:
                 kw['fmt'] = self.formats[fmt]
-            self.interp.call_unit(self.save_u, [], kw, self.store)
+            self.interp.call_unit(self.save_u, [], kw, store if store is not None else self.store)
             return 'saved'
         except ARaise as ex:
             return f'raises {_short(ex.what)}'
         finally:
             self.fs.fail_dump = False
+            self.fs.fail_write = False
 
-    def load(self, key: str):
+    def load(self, key: str, store=None):
         try:
-            return ('value', self.interp.call_unit(self.load_u, [], {'node_id': key}, self.store))
+            return ('value', self.interp.call_unit(self.load_u, [], {'node_id': key}, store if store is not None else self.store))
         except ARaise as ex:
             return ('raises', _short(ex.what))
 
@@ -293,12 +369,14 @@ def _errs(ctx: Ctx) -> Tuple[set, set]:
     return exists, missing
 
 
-def rule_write_once_map(ctx: Ctx, out: Collector) -> None:
-    """FS-9."""
+def decide_laws(ctx: Ctx):
+    """(laws: law -> list of failing scenarios, counts: law -> number of scenarios, keys, formats); computed once per Ctx"""
+    cached = getattr(ctx, '_fw_laws', None)
+    if cached is not None:
+        return cached
     p = ctx.p
     st = _store(ctx)
     exists_names, missing_names = _errs(ctx)
-    where = p.loc(st.module, st.node)
     laws: Dict[str, List[str]] = {'round trip': [], 'write once': [], 'absent': [], 'no aliasing': [], 'failed save': []}
     counts = {k: 0 for k in laws}
 
@@ -324,12 +402,14 @@ def rule_write_once_map(ctx: Ctx, out: Collector) -> None:
                     r = s.load(key)
                     if not (r[0] == 'raises' and r[1] in missing_names):
                         laws['absent'].append(f'{label}: load before any save gives {r}')
-                    r = s.save(key, v, fmt, fail=True)
-                    if not r.startswith('raises') or r.split()[-1] in exists_names:
-                        laws['failed save'].append(f'{label}: a save whose serializer raises reports {r}')
-                    r = s.load(key)
-                    if not (r[0] == 'raises' and r[1] in missing_names):
-                        laws['failed save'].append(f'{label}: after a failed save load gives {r}')
+                    for how in ('serialise', 'write'):
+                        what = 'whose serializer raises' if how == 'serialise' else 'whose content the file system refuses (disk full)'
+                        r = s.save(key, v, fmt, fail=how)
+                        if not r.startswith('raises') or r.split()[-1] in exists_names:
+                            laws['failed save'].append(f'{label}: a save {what} reports {r}')
+                        r = s.load(key)
+                        if not (r[0] == 'raises' and r[1] in missing_names):
+                            laws['failed save'].append(f'{label}: after a save {what} load gives {r}')
                     r = s.save(key, v, fmt)
                     if r != 'saved':
                         laws['failed save' if 'Exists' in r else 'round trip'].append(f'{label}: save after a failed save {r}')
@@ -351,6 +431,33 @@ def rule_write_once_map(ctx: Ctx, out: Collector) -> None:
                 for law in ('absent', 'failed save', 'round trip', 'write once'):
                     counts[law] += 1
                 scenario(single)
+
+    # ---- two store objects over one directory (two contexts of one pipeline id): what one saved the other finds
+    laws['shared directory'] = []
+    counts['shared directory'] = 0
+    for key in KEYS_:
+        for fmt in fmts:
+            def shared(s: Session, key=key, fmt=fmt):
+                label = f'key {key!r}, format {fmt}, two store objects A and B'
+                a_, b_ = s.store, s.second_store()
+                v, v2 = _tok('v'), _tok('v2')
+                r = s.load(key, a_)                                   # A has looked at the (empty) directory
+                if not (r[0] == 'raises' and r[1] in missing_names):
+                    laws['shared directory'].append(f'{label}: A.load before any save gives {r}')
+                if s.save(key, v, fmt, store=b_) != 'saved':
+                    return True
+                r = s.load(key, a_)
+                if not _is(r, v):
+                    laws['shared directory'].append(f'{label}: after B.save, A.load gives {r}')
+                r = s.save(key, v2, fmt, store=a_)
+                if not (r.startswith('raises') and r.split()[-1] in exists_names):
+                    laws['shared directory'].append(f'{label}: after B.save, A.save {r}')
+                r = s.load(key, b_)
+                if not _is(r, v):
+                    laws['shared directory'].append(f'{label}: after B.save and a refused A.save, B.load gives {r}')
+                return True
+            counts['shared directory'] += 1
+            scenario(shared)
 
     # ---- pairs of keys
     for k1, k2 in itertools.permutations(KEYS_, 2):
@@ -388,6 +495,30 @@ def rule_write_once_map(ctx: Ctx, out: Collector) -> None:
     total = sum(counts.values())
     if total < 200:
         raise AnalysisError(f'file-system worlds: only {total} scenarios interpreted (FS-9 anchor vanished)')
+    ctx._fw_laws = (laws, counts, KEYS_, fmts)
+    return ctx._fw_laws
+
+
+def report_laws(ctx: Ctx, out: Collector, rule: str, which: List[str], title: str, consequence: str) -> None:
+    """One instance of `rule`: the named laws of the file-system worlds."""
+    laws, counts, keys_, fmts = decide_laws(ctx)
+    st = _store(ctx)
+    where = ctx.p.loc(st.module, st.node)
+    problems = sorted({x for law in which for x in laws[law]})
+    n = sum(counts[law] for law in which)
+    cons = f'{st.module.name}::{st.name}::{title}'
+    if not problems:
+        out.ok(rule, cons, where, f'{n} scenarios over {len(keys_)} keys x {len(fmts)} formats ({", ".join(which)})', scenarios=n)
+    else:
+        out.bad(rule, cons, where, f'{consequence}: ' + '; '.join(problems[:3]) + (f' (+{len(problems) - 3} more)' if len(problems) > 3 else ''),
+                scenarios=n, failing=problems[:20])
+
+
+def rule_write_once_map(ctx: Ctx, out: Collector) -> None:
+    """FS-9."""
+    laws, counts, KEYS_, fmts = decide_laws(ctx)
+    st = _store(ctx)
+    where = ctx.p.loc(st.module, st.node)
     for law, problems in laws.items():
         cons = f'{st.module.name}::{st.name}::write-once map keyed exactly by the node id: {law} [fs-world {law}]'
         if not problems:
